@@ -16,6 +16,8 @@ const TICKS: &str = "01234 ";
 
 #[derive(Clone, Debug, PartialEq)]
 pub enum Op {
+    /// the terminal is widened: from now on it reports its full width
+    Widen,
     Tick,
     Inc,
     SetPosToLen,
@@ -200,6 +202,8 @@ pub fn frame_rows(b: &RefBar, w: usize, stats: &mut Stats) -> Vec<String> {
 }
 
 pub struct C01 {
+    /// the terminal reports this (smaller) width until it is widened to `w` by Op::Widen
+    pub widen_from: Option<usize>,
     pub w: usize,
     pub h: usize,
     pub tpl0: usize,
@@ -209,7 +213,10 @@ pub struct C01 {
 
 impl C01 {
     fn config(&self) -> String {
-        format!("W={} H={} initial_template={:?}", self.w, self.h, TEMPLATES[self.tpl0])
+        match self.widen_from {
+            Some(w0) => format!("W={} (reports {} until widened) H={} initial_template={:?}", self.w, w0, self.h, TEMPLATES[self.tpl0]),
+            None => format!("W={} H={} initial_template={:?}", self.w, self.h, TEMPLATES[self.tpl0]),
+        }
     }
 }
 
@@ -223,7 +230,15 @@ pub fn trimmed(mut v: Vec<String>) -> Vec<String> {
 impl Hist for C01 {
     type Op = Op;
 
-    fn alphabet(&self, _prefix: &[Op]) -> Vec<Op> {
+    fn alphabet(&self, prefix: &[Op]) -> Vec<Op> {
+        if self.widen_from.is_some() {
+            // short texts only: nothing may depend on how a real terminal reflows when it is resized
+            let mut v = vec![Op::Tick, Op::Inc, Op::Msg(0), Op::Msg(1), Op::Msg(3), Op::Style(2), Op::Style(3), Op::Style(1), Op::Println(1), Op::Println(3), Op::SuspendOut, Op::Finish, Op::FinishClear, Op::Reset];
+            if !prefix.contains(&Op::Widen) {
+                v.push(Op::Widen);
+            }
+            return v;
+        }
         let mut v = vec![Op::Tick, Op::Inc, Op::SetPosToLen, Op::SetLength7];
         v.extend((0..8).filter(|&i| i != 6 || self.w >= 2).map(Op::Msg));
         v.push(Op::Prefix);
@@ -235,8 +250,11 @@ impl Hist for C01 {
 
     fn run(&self, hist: &[Op], stats: &mut Stats) -> Verdict {
         clock::reset();
-        let w = self.w;
-        let spy = Spy::new(w, self.h, self.vt);
+        let mut w = self.widen_from.unwrap_or(self.w);
+        let spy = Spy::new(self.w, self.h, self.vt);
+        if let Some(w0) = self.widen_from {
+            spy.st().report_w = Some(w0 as u16);
+        }
         let pb = ProgressBar::with_draw_target(Some(5), ProgressDrawTarget::term_like(spy.boxed()))
             .with_style(style_for(self.tpl0));
         let mut rb = RefBar { pos: 0, len: Some(5), msg: String::new(), prefix: String::new(), tpl: self.tpl0, status: Status::InProgress, tick: 0 };
@@ -248,7 +266,12 @@ impl Hist for C01 {
             clock::advance_ms(1000);
             let mut draws = true;
             let spy2 = spy.clone();
+            if *op == Op::Widen {
+                spy.st().report_w = None;
+                w = self.w;
+            }
             let r = catch(|| match op {
+                Op::Widen => {}
                 Op::Tick => pb.tick(),
                 Op::Inc => pb.inc(1),
                 Op::SetPosToLen => pb.set_position(pb.length().unwrap_or(3)),
@@ -276,6 +299,7 @@ impl Hist for C01 {
                 });
             }
             match op {
+                Op::Widen => draws = false,
                 Op::Tick => rb.tick += 1,
                 Op::Inc => {
                     rb.pos += 1;
@@ -361,7 +385,7 @@ impl Hist for C01 {
                 detail: format!("expected document {:?}, terminal shows {:?}", expected, doc),
             });
         }
-        if probe != (expected_full.len(), 0) {
+        if self.widen_from.is_none() && probe != (expected_full.len(), 0) {
             return Verdict::Bad(Violation {
                 class: "fresh-line: ordinary output after the draw does not start at column 0 below the frame".into(),
                 config: self.config(),
@@ -400,26 +424,32 @@ fn configs(tier: Tier) -> Vec<(C01, usize)> {
         Tier::Quick => {
             for &w in &[1usize, 3, 8, 20] {
                 for tpl0 in [0usize, 1] {
-                    v.push((C01 { w, h: 40, tpl0, vt: w == 8, reduced: false }, 4));
+                    v.push((C01 { widen_from: None, w, h: 40, tpl0, vt: w == 8, reduced: false }, 4));
                 }
             }
-            v.push((C01 { w: 8, h: 40, tpl0: 1, vt: false, reduced: true }, 4));
-            v.push((C01 { w: 3, h: 40, tpl0: 0, vt: false, reduced: true }, 4));
+            v.push((C01 { widen_from: None, w: 8, h: 40, tpl0: 1, vt: false, reduced: true }, 4));
+            v.push((C01 { widen_from: None, w: 3, h: 40, tpl0: 0, vt: false, reduced: true }, 4));
             // terminals exactly as high as the frame (histories in which a frame does not fit are skipped)
-            v.push((C01 { w: 20, h: 2, tpl0: 1, vt: false, reduced: false }, 3));
-            v.push((C01 { w: 8, h: 1, tpl0: 0, vt: false, reduced: false }, 3));
-            v.push((C01 { w: 3, h: 3, tpl0: 1, vt: true, reduced: true }, 4));
+            v.push((C01 { widen_from: None, w: 20, h: 2, tpl0: 1, vt: false, reduced: false }, 3));
+            v.push((C01 { widen_from: None, w: 8, h: 1, tpl0: 0, vt: false, reduced: false }, 3));
+            v.push((C01 { widen_from: None, w: 3, h: 3, tpl0: 1, vt: true, reduced: true }, 4));
+            // a terminal that is widened between two operations (it reported 12 columns, then 30)
+            v.push((C01 { widen_from: Some(12), w: 30, h: 40, tpl0: 3, vt: false, reduced: false }, 4));
+            v.push((C01 { widen_from: Some(12), w: 30, h: 40, tpl0: 2, vt: false, reduced: false }, 3));
         }
         Tier::Thorough => {
             for &w in &[1usize, 2, 3, 8, 20] {
                 for tpl0 in 0..4usize {
-                    v.push((C01 { w, h: 60, tpl0, vt: true, reduced: false }, 4));
+                    v.push((C01 { widen_from: None, w, h: 60, tpl0, vt: true, reduced: false }, 4));
                 }
             }
-            v.push((C01 { w: 8, h: 60, tpl0: 1, vt: false, reduced: false }, 5));
-            v.push((C01 { w: 3, h: 60, tpl0: 0, vt: false, reduced: false }, 5));
+            v.push((C01 { widen_from: None, w: 8, h: 60, tpl0: 1, vt: false, reduced: false }, 5));
+            v.push((C01 { widen_from: None, w: 3, h: 60, tpl0: 0, vt: false, reduced: false }, 5));
+            for tpl0 in 0..4usize {
+                v.push((C01 { widen_from: Some(12), w: 30, h: 60, tpl0, vt: false, reduced: false }, 5));
+            }
             for (w, h, tpl0) in [(20usize, 2usize, 1usize), (8, 1, 0), (3, 3, 1), (20, 1, 2), (8, 2, 3), (2, 4, 1)] {
-                v.push((C01 { w, h, tpl0, vt: w >= 2 && h >= 2, reduced: false }, 4));
+                v.push((C01 { widen_from: None, w, h, tpl0, vt: w >= 2 && h >= 2, reduced: false }, 4));
             }
         }
     }
